@@ -217,7 +217,7 @@ def invariant_obligations(ctx, facts, rule=None):
         b = facts.body(k)
         for bb in bbs:
             atoms = [models.canon_atom(a) for _, a in atoms_at(b, bb)]
-            ok = any((c[0] == "callres" and c[1] in mags and c[-1] == "Ok?") or (c[0] == "callres" and c[1] == "std::result::Result::<T, E>::ok" and c[-1] in ("Ok?", "Some") and any(m in str(c[2]) for m in mags)) for c in atoms)
+            ok = any((c[0] == "callres" and c[1] in mags and c[-1] in ("Ok?", "Ok")) or (c[0] == "callres" and c[1] == "std::result::Result::<T, E>::ok" and c[-1] in ("Ok?", "Some") and any(m in str(c[2]) for m in mags)) for c in atoms)
             arg = norm(b.resolve_operand(b.term(bb)["args"][1]))
             ctx.ob(R("KEYCHECK"), "%s: the key check succeeded on every path to the search" % facts.fns[k]["name"], ok, fn=k, site=b.site(bb), detail="; ".join(show_canon(c) for c in atoms)[:200])
     # public methods of Qualifiers touching the Vec with a length-changing or index-taking op must derive the index from get_index/entry
